@@ -15,10 +15,11 @@ namespace {
    template<class T> struct Peek : ipr::Sequence<T> { using ipr::Sequence<T>::get; };
    template<class T> const T& at(const ipr::Sequence<T>& s, std::size_t i) { return (s.*&Peek<T>::get)(i); }
 }
-extern "C" void h_region_history(void) {
+// K region-opening operations; SymType: the type a handler catches is picked symbolically at every step (otherwise it rotates with the step)
+template<int K, bool SymType> static void region_history() {
    World* w = new World; auto& lx = w->lx;
    const ipr::Name& nm = lx.get_identifier(u8"e");
-   for (int k = 0; k < C12_K; ++k) {
+   for (int k = 0; k < K; ++k) {
       unsigned c = vp_pick(NCONSTRUCT), pi = vp_pick(w->n);
       Made& p = w->made[pi]; Made m { nullptr, nullptr, p.r, nullptr, true, p.depth + 1 };
       switch (c) {
@@ -36,7 +37,8 @@ extern "C" void h_region_history(void) {
       case KClosure: { auto* x = lx.make_closure(*p.r); m.ir = &x->body; m.r = &static_cast<const ipr::Closure&>(*x).region(); m.owner = x; break; }
       case KBlock: { auto* x = lx.make_block(*p.r); m.ir = &x->lexical_region; m.r = &static_cast<const ipr::Block&>(*x).region(); m.owner = x; m.blk = x; break; }
       case KHandler: {
-         const ipr::Type& caught = vp_pick(3) == 0 ? static_cast<const ipr::Type&>(lx.ellipsis_type()) : vp_flag() ? static_cast<const ipr::Type&>(lx.int_type()) : lx.get_reference(lx.get_qualified(lx.const_qualifier(), lx.int_type()));      // catch (...), by value, by reference
+         const unsigned ht = SymType ? vp_pick(3) : unsigned(k + pi) % 3, byval = ht == 1 ? 1u : 0u;
+         const ipr::Type& caught = ht == 0 ? static_cast<const ipr::Type&>(lx.ellipsis_type()) : byval ? static_cast<const ipr::Type&>(lx.int_type()) : lx.get_reference(lx.get_qualified(lx.const_qualifier(), lx.int_type()));      // catch (...), by value, by reference
          auto* b = lx.make_block(*p.r); auto* h = b->new_handler(nm, caught); const ipr::Handler& ch = *h;
          const ipr::Region& body = ch.body().region(); const ipr::Region& eh = body.enclosing();
          // body enclosed by a region binding exactly the exception parameter, itself enclosed by the region enclosing the guarded block
@@ -55,7 +57,7 @@ extern "C" void h_region_history(void) {
       w->made[w->n++] = m;
    }
    // later mutations of the constructs made so far: every block gains a handler, every region with an implementation handle a sub-region
-   if (vp_flag()) for (int i = 0; i < w->n; ++i) { if (w->made[i].blk) w->made[i].blk->new_handler(nm, lx.bool_type()); if (w->made[i].ir) w->made[i].ir->make_subregion(); }
+   if (!SymType || vp_flag()) for (int i = 0; i < w->n; ++i) { if (w->made[i].blk) w->made[i].blk->new_handler(nm, lx.bool_type()); if (w->made[i].ir) w->made[i].ir->make_subregion(); }
    const ipr::Region* root = w->unit.global_region();
    for (int i = 0; i < w->n; ++i) {
       const Made& m = w->made[i];
@@ -65,11 +67,13 @@ extern "C" void h_region_history(void) {
       if (m.owner_known) vp_assert(m.r->owner().is_valid() && &m.r->owner().get() == m.owner, 8);
       // walking outward reaches the global region in exactly depth steps
       const ipr::Region* cur = m.r; unsigned steps = 0;
-      while (!cur->global() && steps <= 2 * C12_K + 2) { cur = &cur->enclosing(); ++steps; }
+      while (!cur->global() && steps <= 2 * K + 2) { cur = &cur->enclosing(); ++steps; }
       vp_assert(cur == root && steps == m.depth, 9);
    }
    vp_done();
 }
+extern "C" void h_region_history(void) { region_history<C12_K, (C12_K <= 3)>(); }
+extern "C" void h_region_history3(void) { region_history<3, true>(); }
 // parameters, enumerators, bases: home region, nesting level (fully symbolic), zero-based position
 extern "C" void h_members(void) {
    World* w = new World; auto& lx = w->lx;
